@@ -200,7 +200,34 @@ const FAULT_MENU: [FaultKind; 6] = [
     FaultKind::Error(ErrKind::Other),
 ];
 
+/// Scripted plain workloads that some sweep checks run after their generated ones.
+fn sweep_scripts(id: &str) -> Vec<(&'static str, u64, u64, ScriptFn)> {
+    match id {
+        "C03" => vec![("window-saturation", 500, 50_000, crate::scripts::saturation_script)],
+        "C16" => vec![("wrap", 300, 30_000, wrap_script), ("window-saturation", 200, 20_000, crate::scripts::saturation_script)],
+        _ => vec![],
+    }
+}
+
 impl SweepCheck {
+    fn exec_script(&self, f: ScriptFn, seed: u64, index: u64, tier: Tier) -> (RunLog, crate::world::Shared) {
+        let mut rng = Rng::new(seed);
+        let (cfg, steps) = f(&mut rng, index, tier);
+        let n = steps.len();
+        if self.epilogue_polls > 0 {
+            let mut d = WithEpilogue::new(Script::new(steps), self.epilogue_polls);
+            d.round_trip = self.round_trip;
+            d.tight_limits = self.id == "C16";
+            let (mut log, world) = run_case(&cfg, seed, &mut d, n + self.epilogue_polls + 32);
+            log.epilogue = true;
+            log.epilogue_from = d.from_step;
+            log.epilogue_polls_max = self.epilogue_polls;
+            (log, world)
+        } else {
+            run_case(&cfg, seed, &mut Script::new(steps), n + 4)
+        }
+    }
+
     fn exec(&self, profile: &Profile, rng: &Rng, seed: u64, ff: Option<(usize, FaultPlan)>, fc: Option<(usize, usize)>) -> (RunLog, crate::world::Shared) {
         let mut rng = rng.clone();
         let cfg = gen_cfg(&mut rng, profile);
@@ -242,7 +269,9 @@ impl Check for SweepCheck {
         self.assumptions.iter().map(|s| s.to_string()).collect()
     }
     fn workloads(&self) -> Vec<Workload> {
-        self.workloads.iter().map(|(n, q, t, _)| Workload { name: n, quick: *q, thorough: *t }).collect()
+        let mut v: Vec<Workload> = self.workloads.iter().map(|(n, q, t, _)| Workload { name: n, quick: *q, thorough: *t }).collect();
+        v.extend(sweep_scripts(self.id).into_iter().map(|(n, q, t, _)| Workload { name: n, quick: q, thorough: t }));
+        v
     }
     fn min_nontrivial(&self, tier: Tier) -> usize {
         if tier == Tier::Quick { self.min_nt.0 } else { self.min_nt.1 }
@@ -250,7 +279,19 @@ impl Check for SweepCheck {
     fn required_counters(&self) -> Vec<&'static str> {
         self.required.clone()
     }
-    fn run(&self, workload: usize, seed: u64, _index: u64, tier: Tier, verbose: bool) -> CaseOut {
+    fn run(&self, workload: usize, seed: u64, index: u64, tier: Tier, verbose: bool) -> CaseOut {
+        if workload >= self.workloads.len() {
+            // scripted plain case
+            let f = sweep_scripts(self.id)[workload - self.workloads.len()].3;
+            let mut out = CaseOut::default();
+            let (log, world) = self.exec_script(f, seed, index, tier);
+            let w = world.borrow();
+            let t = Trace::new(&log, &w);
+            let nt = (self.monitor)(&t, &mut out);
+            out.count("scripted_cases", 1);
+            finish_case(self.id, &log, &w, &mut out, nt, verbose);
+            return out;
+        }
         let mut rng0 = Rng::new(seed);
         let mut profile = (self.workloads[workload].3)(&mut rng0);
         if workload >= self.plain_from {
@@ -571,7 +612,8 @@ fn replay_heavy(r: &mut Rng) -> Profile {
     p.conn_fault_pct = 40;
     p.max_conns = 8;
     p.rm_choices = vec![None, None, Some(8), Some(9), Some(3)];
-    p.mps_choices = vec![None];
+    // the limit may differ from connection to connection (a packet above it waits for a later one)
+    p.mps_choices = vec![None, None, None, Some(40), Some(120)];
     p.maxqos_choices = vec![None];
     p.tx_choices = vec![256, 512, 2048];
     p.cancel_pct = *r.pick(&[0u32, 10, 30]);
@@ -637,7 +679,7 @@ fn inbound_heavy(r: &mut Rng) -> Profile {
     p.w_release = 4;
     p.ack_modes = vec![AckMode::Hold, AckMode::Hold, AckMode::Immediate, AckMode::Never];
     p.tx_choices = vec![48, 64, 96, 128, 512];
-    p.rx_choices = vec![64, 128, 256, 1024];
+    p.rx_choices = vec![64, 128, 256, 1024, 64, 128, 256, 1024, 64, 128, 256, 1024, 70_000];
     p.mps_choices = vec![None, None, Some(100_000)];
     p.sp_w = [4, 6, 2];
     p.bad_connack_pct = 5;
@@ -715,6 +757,8 @@ fn keepalive_mix(r: &mut Rng) -> Profile {
 fn dead_handle(r: &mut Rng) -> Profile {
     let mut p = Profile::default();
     p.name = "dead-handle";
+    // limits on both sides of the 16-bit boundary (none of them restricts anything here)
+    p.mps_choices = vec![None, None, Some(65535), Some(65536), Some(65537), Some(131072), Some(1 << 20), Some(u32::MAX)];
     p.inbound_near_rx = r.chance(1, 3);
     p.w_pub = [6, 6, 6];
     p.w_sub = 6;
@@ -745,7 +789,7 @@ fn mps_edges(r: &mut Rng) -> Profile {
     let mut p = Profile::default();
     p.name = "mps-edges";
     let mut mps: Vec<Option<u32>> = (2..=64).map(Some).collect();
-    mps.extend([Some(127), Some(128), Some(129), None]);
+    mps.extend([Some(127), Some(128), Some(129), None, Some(65_535), Some(65_536), Some(65_537), Some(u32::MAX)]);
     p.mps_choices = mps;
     p.near_mps = true;
     p.inbound_near_rx = r.chance(1, 2);
@@ -867,17 +911,25 @@ pub fn all() -> Vec<Box<dyn Check>> {
         min_nt: (200, 2000),
         required: vec!["resumes_with_inflight", "handles_checked_after_fresh_session", "replays_verified", "injection_points"],
     }),
-    gen_check!("C06", "exploration",
-        "programs with Receive Maximum in {1,2,3,7,8,9,16,65535,absent}, mixed QoS 1/2, held/reordered acks, cancellations and resumed reconnects; conservation monitor in the broker's view (PUBLISH completed on the wire minus acks the broker has sent, plus exchanges entering the connection in the release phase). Non-trivial iff a publish was refused NotReady or a resumed connection began with publishes in flight.",
-        COMMON_ASSUME.to_vec(),
-        vec![("window-heavy", 4000, 2_000_000, window_heavy as ProfileFn), ("general", 2000, 1_000_000, general)],
-        m::c06::check, 80, 0, (200, 2000), vec!["not_ready_refusals", "resumes_with_inflight", "window_filled"]),
+    Box::new(MixCheck {
+        id: "C06",
+        level: "exploration",
+        rule: concat!("programs with Receive Maximum in {1,2,3,7,8,9,16,65535,absent}, mixed QoS 1/2, held/reordered acks, cancellations and resumed reconnects; conservation monitor in the broker's view (PUBLISH completed on the wire minus acks the broker has sent, plus exchanges entering the connection in the release phase). Non-trivial iff a publish was refused NotReady or a resumed connection began with publishes in flight.", " Scripted workload `window-saturation`: eight QoS 2 exchanges waiting for PUBCOMP under a broker window of 8, 9, 20 or 65535, then more requests than the local window holds."),
+        assumptions: COMMON_ASSUME.to_vec(),
+        workloads: vec![("window-heavy", 4000, 2_000_000, Source::Gen(window_heavy)), ("general", 2000, 1_000_000, Source::Gen(general)), ("window-saturation", 500, 100_000, Source::Script(crate::scripts::saturation_script))],
+        monitor: m::c06::check,
+        max_steps: 80,
+        epilogue_polls: 0,
+        min_nt: (200, 2000),
+        required: vec!["not_ready_refusals", "resumes_with_inflight", "window_filled"],
+        exhaustive: false,
+    }),
     Box::new(MixCheck {
         id: "C07",
         level: "exploration",
         rule: "every accepted PUBLISH(QoS>0)/SUBSCRIBE/UNSUBSCRIBE must get an identifier that is non-zero and not used by any request still awaiting its final acknowledgement (reference in-use set rebuilt from consumed acks). Workloads: scripted wrap histories (1-3 long-lived requests whose acknowledgement is withheld, the 16-bit counter brought to 65532..65535 either through the verif setter or by really burning up to 65535 identifiers through refused publishes, then 6-12 further allocations across the wrap with identifiers burnt in between) and random histories. Non-trivial iff an allocation happened next to the wrap point (counter < 8 or > 65000) while at least one identifier was in use.",
         assumptions: COMMON_ASSUME.to_vec(),
-        workloads: vec![("wrap", 1500, 600_000, Source::Script(wrap_script)), ("replay-heavy", 2000, 600_000, Source::Gen(replay_heavy)), ("general", 2000, 600_000, Source::Gen(general))],
+        workloads: vec![("wrap", 1500, 600_000, Source::Script(wrap_script)), ("replay-heavy", 2000, 600_000, Source::Gen(replay_heavy)), ("general", 2000, 600_000, Source::Gen(general)), ("window-saturation", 500, 100_000, Source::Script(crate::scripts::saturation_script))],
         monitor: m::c07::check,
         max_steps: 70,
         epilogue_polls: 0,
@@ -980,7 +1032,7 @@ pub fn all() -> Vec<Box<dyn Check>> {
         max_steps: 70,
         epilogue_polls: 0,
         min_nt: (200, 2000),
-        required: vec!["too_large_refusals", "mandatory_packet_did_not_fit", "oversize_inbound_rejected", "acks_owed_under_tiny_limit"],
+        required: vec!["too_large_refusals", "mandatory_packet_did_not_fit", "oversize_inbound_rejected", "acks_owed_under_tiny_limit", "connects_with_receive_buffer_above_64k"],
         exhaustive: false,
     }),
     Box::new(MixCheck {
